@@ -388,6 +388,12 @@ class Intervals(object):
         return s
 
     def _edge(self, node, lab, s):
+        if node.kind == 'sw' and isinstance(lab, tuple) and lab[0] == 'case' and lab[1] is not None:
+            # edge into `case v:` - the controlling expression equals v
+            iv = self.ev(node.x, s, node.id)
+            if iv is not None and (lab[1] < iv[0] or lab[1] > iv[1]):
+                return None
+            return self._refine_side(s, node.x, node.id, lo=lab[1], hi=lab[1])
         if node.kind != 'br' or lab not in (True, False):
             return s
         x = strip_impl(node.x)
